@@ -85,6 +85,17 @@ def state_of(obs, old, new):
     return "mixed"
 
 
+def state_of_any(obs, olds, new):
+    """state_of() with several acceptable previous trees (fault sequences: the tree before the first interrupted sync
+    and whatever complete tree the earlier fault left are both 'previous')."""
+    if obs is None:
+        return "absent"
+    for o in olds:
+        if o is not None and same(obs, o):
+            return "old"
+    return state_of(obs, None, new)
+
+
 def old_or_new(state, had_old):
     if state in ("old", "new"):
         return True
